@@ -62,6 +62,14 @@ Definition slice_to (s : bytes) (n : Z) : option bytes :=
 
 Definition char_count (s : bytes) : Z := Z.of_nat (length (filter (fun b => negb (is_cont b)) s)).
 
+(** [s.chars().take(n).collect()]: the bytes of the first [n] characters *)
+Fixpoint take_chars (n : nat) (s : bytes) : bytes :=
+  match s with
+  | [] => []
+  | b :: r => if is_cont b then b :: take_chars n r
+              else match n with O => [] | S n' => b :: take_chars n' r end
+  end.
+
 Definition is_ascii (s : bytes) : bool := forallb (inr 0 127) s.
 Definition ascii_upper_b (b : Z) : Z := if inr 97 122 b then b - 32 else b.
 Definition ascii_lower_b (b : Z) : Z := if inr 65 90 b then b + 32 else b.
